@@ -368,3 +368,77 @@ Inductive history (tree : wnode) (flv : Z) : option path -> list coord -> Prop :
 | hist_crash_nothing_written old acc k :
     history tree flv old acc ->
     history tree flv old (acc ++ procs (firstn k (run_walk old tree flv))).
+
+(* ------------------------------------------------------------------ what a process call hands over *)
+
+(* MetaGrid.tile_list(main_tile) = _meta_tile_list: the tiles of the meta tile, rows from the top, None outside the grid *)
+Definition meta_tile_list (g : grid) (msx msy : Z) (t : coord) : list (option coord) :=
+  let '(x, y, l) := t in
+  let '(sx, sy) := meta_size g msx msy l in
+  let mx := x / sx * sx in
+  let my := y / sy * sy in
+  let xs := zrange mx (mx + sx - 1) in
+  let ys := if ul g then zrange my (my + sy - 1) else rev (zrange my (my + sy - 1)) in
+  create_tile_list xs ys l (grid_size g l).
+
+Fixpoint somes {A} (l : list (option A)) : list A :=
+  match l with
+  | [] => []
+  | Some a :: r => a :: somes r
+  | None :: r => somes r
+  end.
+
+(* the list given to worker_pool.process for the subtile t (work_on_metatiles):
+   handle_all: [t];  otherwise (TileWalker._tiles_of) the members of the meta tile of t that pass the filter
+   keep = "not is_cached" (uncached mode) / "is_stale" (--skip-uncached mode), in tile_list order *)
+Definition handed_tiles (g : grid) (msx msy : Z) (handle_all : bool) (keep : coord -> bool) (t : coord) : list coord :=
+  if handle_all then [t] else filter keep (somes (meta_tile_list g msx msy t)).
+
+Inductive oevent : Type :=
+| OProc (ts : list coord)                     (* worker_pool.process(ts, ...) *)
+| ORep (lv : Z) (id : option path)
+| OErr.
+
+(* the observable trace: process is only called with a non-empty list (the duplicate deque is updated before that
+   test, so dropping the call does not influence the rest of the walk) *)
+Fixpoint observe (g : grid) (msx msy : Z) (handle_all : bool) (keep : coord -> bool) (evs : list event) : list oevent :=
+  match evs with
+  | [] => []
+  | EProc t :: r =>
+    match handed_tiles g msx msy handle_all keep t with
+    | [] => observe g msx msy handle_all keep r
+    | ts => OProc ts :: observe g msx msy handle_all keep r
+    end
+  | ERep lv id :: r => ORep lv id :: observe g msx msy handle_all keep r
+  | EErr :: r => OErr :: observe g msx msy handle_all keep r
+  end.
+
+(* every single tile handed over in a trace *)
+Definition handed_all (g : grid) (msx msy : Z) (handle_all : bool) (keep : coord -> bool) (evs : list event) : list coord :=
+  flat_map (handed_tiles g msx msy handle_all keep) (procs evs).
+
+Fixpoint coords_eqb (a b : list coord) : bool :=
+  match a, b with
+  | [], [] => true
+  | x :: a', y :: b' => coord_eqb x y && coords_eqb a' b'
+  | _, _ => false
+  end.
+
+Definition oevent_eqb (a b : oevent) : bool :=
+  match a, b with
+  | OProc s, OProc t => coords_eqb s t
+  | ORep l i, ORep m j => (l =? m) && opath_eqb i j
+  | OErr, OErr => true
+  | _, _ => false
+  end.
+
+Fixpoint oevents_eqb (a b : list oevent) : bool :=
+  match a, b with
+  | [], [] => true
+  | x :: a', y :: b' => oevent_eqb x y && oevents_eqb a' b'
+  | _, _ => false
+  end.
+
+(* filter used for the tree-level tie: process calls of the listed subtiles are dropped (all members cached) *)
+Definition drop_procs (drop : list coord) (evs : list event) : list event :=
+  filter (fun e => match e with EProc t => negb (existsb (coord_eqb t) drop) | _ => true end) evs.
